@@ -37,6 +37,12 @@ type Hooks struct {
 	RangeBody func(rs *ast.RangeStmt, st State) State
 	// LoopHead, if set, is called with the joined state at a loop head before each iteration (widening point).
 	LoopHead func(loop ast.Stmt, st State) State
+	// BackEdge, if set, observes the state that flows from the end of a for-loop iteration
+	// (after the post statement) back to the loop head.
+	BackEdge func(loop *ast.ForStmt, st State)
+	// BackEdgeAt, if set, is called instead of BackEdge for loops without a post statement, once
+	// per way back to the head: each continue statement and the end of the body (site = loop.Body).
+	BackEdgeAt func(loop *ast.ForStmt, site ast.Node, st State)
 	// LoopEnter, if set, is called once each time control reaches a loop from outside.
 	LoopEnter func(loop ast.Stmt)
 	Return    func(rs *ast.ReturnStmt, st State)
@@ -256,6 +262,9 @@ func (w *walker) stmt(s ast.Stmt, st State, label string) State {
 			}
 		case token.CONTINUE:
 			if t := w.findTarget(lbl, true); t != nil {
+				if fs, ok := t.stmt.(*ast.ForStmt); ok && fs.Post == nil && w.h.BackEdgeAt != nil && st != nil {
+					w.h.BackEdgeAt(fs, s, st)
+				}
 				t.contSt = w.join(t.contSt, st)
 			}
 		case token.GOTO:
@@ -314,6 +323,13 @@ func (w *walker) stmt(s ast.Stmt, st State, label string) State {
 			post := w.join(bodyOut, tgt.contSt)
 			if s.Post != nil && post != nil {
 				post = w.stmt(s.Post, post, "")
+			}
+			if s.Post == nil && w.h.BackEdgeAt != nil {
+				if bodyOut != nil {
+					w.h.BackEdgeAt(s, s.Body, bodyOut)
+				}
+			} else if w.h.BackEdge != nil && post != nil {
+				w.h.BackEdge(s, post)
 			}
 			exit = w.join(f, tgt.breakSt)
 			newHead := w.join(w.copy(head), post)
@@ -614,4 +630,24 @@ func (w *walker) eval(e ast.Expr, st State) State {
 		st = w.h.Visit(e, st)
 	}
 	return st
+}
+
+// WalkLoopBody interprets one iteration of a for loop from the given state at the loop head,
+// with the loop condition assumed true, and returns the state that flows back to the head
+// (fallthrough of the body or a continue); nil if every path leaves the loop.
+func WalkLoopBody(h *Hooks, loop *ast.ForStmt, head State) State {
+	w := &walker{h: h, labels: map[string]State{}}
+	tgt := &jumpTarget{isLoop: true, stmt: loop}
+	w.targets = append(w.targets, tgt)
+	st := w.copy(head)
+	if loop.Cond != nil {
+		t, _ := w.cond(loop.Cond, st)
+		st = t
+	}
+	out := w.block(loop.Body.List, st)
+	back := w.join(out, tgt.contSt)
+	if loop.Post != nil && back != nil {
+		back = w.stmt(loop.Post, back, "")
+	}
+	return back
 }
